@@ -134,4 +134,11 @@ var props = map[string]*propCfg{
 		Quick:       []legCfg{mc("builtins", "MC_C18", "C18_quick.cfg", 10*time.Minute)},
 		Thorough:    []legCfg{mc("builtins", "MC_C18", "C18_thorough.cfg", 30*time.Minute)},
 	},
+	"C20": {
+		ID: "C20", Level: "model_checking", Exhaustive: true,
+		Rule:        "TLC explores the SETVAR / GETVAR state machine (Vars.tla, one action per call) for every select list of 1..MaxItems items drawn from 11 items (SETVAR of a column / a literal / GETVAR(k')+column for 2 keys, GETVAR of each key, a plain column) x every table of 0..MaxRows rows x {empty map, map with k1 preset}, alone and followed by one of 3 second queries sharing the map; the register law is checked on the call history in every state. Every terminal behaviour is exported and replayed: rows and the caller's map are compared after every query. Leg T: seeded histories of 1-4 queries x 1-6 items x 0-6 rows over 3 keys with wrappers around the real SETVAR / GETVAR logging one event per call, validated against VarsTrace. Non-trivial: at least two calls; distinct = distinct (program, initial map).",
+		Assumptions: append([]string{"the trace leg re-registers setvar / getvar as logging wrappers around the library's exported SetVarFunc / GetVarFunc; the replay leg uses the library's own registration"}, baseAssumptions...),
+		Quick:       []legCfg{mc("vars", "MC_C20", "C20_quick.cfg", 10*time.Minute), {Kind: "trace", Name: "vars", Module: "VarsTrace", TraceN: 150, TraceFiles: 4, Timeout: 10 * time.Minute, CallEv: "start", APIKinds: []string{"api", "vars", "set", "get"}}},
+		Thorough:    []legCfg{mc("vars", "MC_C20", "C20_thorough.cfg", 40*time.Minute), {Kind: "trace", Name: "vars", Module: "VarsTrace", TraceN: 800, TraceFiles: 12, Timeout: 20 * time.Minute, CallEv: "start", APIKinds: []string{"api", "vars", "set", "get"}}},
+	},
 }
